@@ -963,7 +963,8 @@ def _run_java(spec, emit, req):
             return {'skipped': 'the message holds a byte string that is not UTF-8: a Java String cannot carry it'}
         req = dict(req, msg=_positional(req['msg']))
     cd = build.cache_dir()
-    rt = os.path.join(cd, 'java_rt')
+    from .fe_java import java_rt_dir
+    rt = java_rt_dir()
     d = os.path.join(cd, 'native_java', '%s_%d' % (spec.name, os.getpid()))
     shutil.rmtree(d, ignore_errors=True)
     os.makedirs(os.path.join(d, 'classes'))
@@ -1393,6 +1394,7 @@ def main(prop, tier, update_known=False):
     unconfirmed = []
     byprog = {p.name: p for p in progs}
     faith_budget = collections.Counter()
+    replay_budget = collections.Counter()
     for s, fs in violations:
         f = fs[0]
         os.makedirs(rdir, exist_ok=True)
@@ -1401,7 +1403,9 @@ def main(prop, tier, update_known=False):
         rec = dict(f)
         rec['dsl'] = emits[f['program']]['dsl'] if f['program'] in emits else None
         rec['cells_affected'] = len(fs)
-        if f.get('lang') in NATIVE_RUN and prop in ('C01', 'C04', 'C06') and f['program'] in byprog and 'unregistered' not in s and 'registered' not in s and 'absent-target' not in s:
+        if (f.get('lang') in NATIVE_RUN and prop in ('C01', 'C04', 'C06') and f['program'] in byprog and 'unregistered' not in s and 'registered' not in s
+                and 'absent-target' not in s and replay_budget[f['lang']] < 4):
+            replay_budget[f['lang']] += 1            # a handful per language: a change that breaks hundreds of cells need not be replayed hundreds of times
             nat = native_replay(f['lang'], byprog[f['program']], emits[f['program']], f)
             if nat is not None:
                 rec['native_replay'] = nat
